@@ -5,7 +5,7 @@
    everything.  Coefficient functions (`coeff`, `coeffT`, `den_table`) give the coefficient of every
    string of primary operators, so equal coefficient functions mean equal operators for EVERY
    assignment of local matrices (any model, any basis sets). *)
-From Coq Require Import List Arith Bool ZArith.
+From Coq Require Import List Arith Bool ZArith Lia.
 From RV Require Import Base.CRing Model.SymMpo Proofs.SymMpoProofs.
 Import ListNotations.
 
@@ -147,6 +147,81 @@ Theorem C01_qr_pivoted_exact :
 Proof. exact qr_pivoted_exact. Qed.
 Print Assumptions C01_qr_pivoted_exact.
 
+(* ================================================================== second wave: bond dimensions (feeds C20) *)
+(* every cut of a graph-built operator: number of bond operators = #selected rows + #selected columns
+   = size of the witness cover *)
+Theorem C01_sweep_bond_dims :
+  forall (R : CRing) (iszero : R -> bool) (ws : list (wit R)) (t : table R), graph_sweep R ws = true ->
+  bond_dims R (fst (sweep R iszero ws t))
+  = map (fun w => match w with WG _ rs cs => cover_size rs cs | WQ _ _ _ _ _ _ => 0 end) ws.
+Proof. exact sweep_bond_dims. Qed.
+Print Assumptions C01_sweep_bond_dims.
+
+(* every cut j, by induction over the sites: when the witnesses are minimum covers, the bond after site
+   i+j+1 has at most as many operators as there are distinct right remainders (operators on the sites
+   beyond the cut) in the ORIGINAL table t0 -- cs0 is any list containing every remainder.  The
+   invariant `same_set (tails t) (remainders of t0)` (holds trivially for t = t0, i = 0) is the
+   characterisation of the columns of every later table in terms of the original one. *)
+Theorem C01_bond_le_cols :
+  forall (R : CRing) (iszero : R -> bool) (ws : list (wit R)) (t t0 : table R) (i : nat),
+  same_set (tails R t) (map (fun x => skipn (S i) (fst x)) t0) -> min_sweep R ws t ->
+  forall (j : nat) (cs0 : list key), j < length ws ->
+    (forall x, In x t0 -> In (skipn (S (S (i + j))) (fst x)) cs0) ->
+    length (nth j (fst (sweep R iszero ws t)) []) <= length cs0.
+Proof. exact bond_le_cols. Qed.
+Print Assumptions C01_bond_le_cols.
+
+Theorem C01_step_tails :
+  forall (R : CRing) (t : table R) (rsel csel : list key),
+  covers R t rsel csel -> incl csel (map (ck R) t) ->
+  same_set (tails R (snd (decompose_graph R t rsel csel))) (map (ck R) t).
+Proof. exact step_tails. Qed.
+Print Assumptions C01_step_tails.
+
+(* rows, every cut: bounded by the distinct row keys of the CURRENT table = distinct pairs
+   (operator of the previous bond, operator on this site) *)
+Theorem C01_bond_le_rows_current :
+  forall (R : CRing) (iszero : R -> bool) (ws : list (wit R)) (t : table R),
+  min_sweep R ws t -> forall (j : nat) (rs0 : list key), j < length ws ->
+    (forall x, In x (nth j (sweep_tables R iszero ws t) []) -> In (rk R x) rs0) ->
+    length (nth j (fst (sweep R iszero ws t)) []) <= length rs0.
+Proof. exact bond_le_rows_current. Qed.
+Print Assumptions C01_bond_le_rows_current.
+
+(* PARTIAL (left parts of the ORIGINAL table): proved for the first cut only.  Full statement, not proved:
+     forall j < length ws, forall ls0, (forall x, In x t0 -> In (firstn (S (S j)) (fst x)) ls0) ->
+       length (nth j (fst (sweep R iszero ws t0)) []) <= length ls0
+   (needs Koenig's matching between the selected columns and unselected rows at every earlier cut; it is
+   checked on the implementation's output at every cut by the harness instead). *)
+Theorem C01_bond_le_left_parts_partial :
+  forall (R : CRing) (iszero : R -> bool) (ws : list (wit R)) (t0 : table R) (ls0 : list key),
+  min_sweep R ws t0 -> 0 < length ws -> (forall x, In x t0 -> In (firstn 2 (fst x)) ls0) ->
+  length (nth 0 (fst (sweep R iszero ws t0)) []) <= length ls0.
+Proof. exact bond_le_left_parts_partial. Qed.
+Print Assumptions C01_bond_le_left_parts_partial.
+
+(* ================================================================== second wave: quantum-number labels (feeds C06) *)
+(* all rows of the (deduplicated) term table have one entry per site and the same total charge q, the
+   identity index 0 is uncharged  ==>  every summand of every bond operator carries the label stored for
+   that operator (labels of the left parts) and qntot = q.  Graph algorithms and the fast path; one
+   charge component (the code treats every component alike). *)
+Theorem C01_mpo_qn_labels :
+  forall (R : CRing) (iszero : R -> bool), (forall x, iszero x = true -> x = r0 R) ->
+  forall (pq : nat -> Z) (terms : table R) (const : R) (idstr : key) (ws : list (wit R)) (bs : list (bond R)) (q : Z),
+  pq 0 = 0%Z -> 0 < length ws ->
+  (forall x, In x (terms_to_table R iszero terms const idstr) -> length (fst x) = length ws /\ charge pq (fst x) = q) ->
+  (length (terms_to_table R iszero terms const idstr) <> 1 ->
+     qn_sweep R ws (extend R (terms_to_table R iszero terms const idstr))) ->
+  construct R iszero terms const idstr ws = Some bs ->
+  labels_ok R pq [0%Z] bs /\ qntot_of R pq bs = q.
+Proof. exact mpo_qn_labels. Qed.
+Print Assumptions C01_mpo_qn_labels.
+
+Theorem C01_qn_check_sound :
+  forall (R : CRing) (ws : list (wit R)) (t : table R), qn_sweepb R ws t = true -> qn_sweep R ws t.
+Proof. exact qn_sweepb_sound. Qed.
+Print Assumptions C01_qn_check_sound.
+
 (* ---- the instances the tie executes satisfy the contract of the zero test *)
 Theorem C01_instances_ok :
   (forall x : ZRing, z_zero x = true -> x = r0 ZRing) /\ (forall x : GiRing, gi_zero x = true -> x = r0 GiRing).
@@ -208,4 +283,26 @@ Example C01_ex_swap :
 Proof.
   exists [WG ZRing [] [[0; 3; 0]; [2; 3; 0]]; WG ZRing [] [[3; 0]]; WG ZRing [] [[0]]].
   eexists. eexists. vm_compute. split; reflexivity.
+Qed.
+
+(* 6. hypotheses satisfiable: example 1 with charges I:0, a:-1, a^+:+1 -- all three terms have total charge 0 *)
+Example C01_ex_qn :
+  qn_sweepb ZRing ex1_ws (extend ZRing (terms_to_table ZRing z_zero ex1_terms 0%Z [0; 0; 0])) = true
+  /\ graph_sweep ZRing ex1_ws = true
+  /\ labels_chain ZRing (fun o => nth o [0; -1; 1]%Z 0%Z) [0%Z]
+       [[[([0; 1], 1%Z)]; [([0; 0], 1%Z)]; [([0; 2], 1%Z)]];
+        [[([0; 2], 1%Z)]; [([1; 2], 3%Z); ([2; 0], 4%Z)]];
+        [[([0; 0], 2%Z); ([1; 1], 1%Z)]]] = [[-1; 0; 1]; [0; 1]; [0]]%Z.
+Proof. vm_compute. repeat split; reflexivity. Qed.
+
+
+(* 7. a minimum cover: two rows sharing one column -- the column alone; no cover of a non-empty table is smaller *)
+Example C01_ex_min_sweep :
+  min_sweep ZRing [WG ZRing [] [[5; 0]]] [([0; 1; 5; 0], 2%Z); ([0; 2; 5; 0], 3%Z)].
+Proof.
+  cbn [min_sweep]. repeat split.
+  - intros x [<-|[<-|[]]]; right; left; reflexivity.
+  - intros c [<-|[]]. left. reflexivity.
+  - intros rs cs H. specialize (H _ (or_introl eq_refl)). unfold cover_size. cbn [length].
+    destruct H as [H|H]; [destruct rs as [|r0 rs]|destruct cs as [|c0 cs]]; try (destruct H; fail); cbn [length]; lia.
 Qed.
